@@ -182,6 +182,8 @@ def main():
             print("suite:", meta.get("suite_with_change"))
     finally:
         sh(f"git -C /repo worktree remove --force {wt}")
+        # the translators regenerate lean/EasyNet/EasyNet/Gen/*.lean from the tree under test: put back the tables of /repo
+        sh("git checkout -- lean/EasyNet/EasyNet/Gen", cwd=VERIF)
     return 0
 
 
